@@ -389,10 +389,17 @@ def _main(prop, engine, tier, seed0, runs, budget, selftest_seeds, t0, a, techni
         script = os.path.join(ROOT, "checks", prop.lower() + ".py")
         p = subprocess.run([sys.executable, script, "--replay", path], capture_output=True,
                            text=True, timeout=CHUNK_TIMEOUT)
-        ok = p.returncode == 1 and f"class={sv['class']} digest={sv['digest']} same_as_recorded=True" in p.stdout
-        if not ok:
+        exact = p.returncode == 1 and f"class={sv['class']} digest={sv['digest']} same_as_recorded=True" in p.stdout
+        m = re.search(r"^VIOLATION property=\S+ replay=\S+ class=(\S+)", p.stdout, re.M)
+        same_family = p.returncode == 1 and m is not None and shrink.family(m.group(1)) == cls
+        if not same_family:
             print(p.stdout[-800:], p.stderr[-800:])
+            print(f"UNREPRODUCED-VIOLATION property={prop} class={cls} seed={seed} file={path}")
             raise HarnessError(f"violation {cls} (seed {seed}) did not reproduce from {path}")
+        if not exact:
+            # the code under test is itself nondeterministic (e.g. salted with a real clock or an
+            # object address): the family reproduces, the details do not
+            print(f"  note: replay of {path} reproduces {cls} but not bit-exactly")
         k = match_known(known, prop, sv, sig)
         if k is not None:
             print(f"KNOWN-FINDING: property={prop} {k.get('what', cls)} (class={cls}, {len(lst)} runs)")
